@@ -40,6 +40,7 @@ func TestC14(t *testing.T) {
 func c14projection(r *simkit.Run) {
 	rt := r.T
 	rates := drawRates(rt, true, int64(rapid.SampledFrom([]int{3, 20, 300}).Draw(rt, "avg-scale")))
+	drawRateSource(rt)
 	nsrc := rapid.IntRange(2, 6).Draw(rt, "sources")
 	capacity := nsrc + rapid.IntRange(0, 2).Draw(rt, "spare")
 	_, unfreeze := freeze(rt)
@@ -124,6 +125,7 @@ func c14eviction(r *simkit.Run) {
 			rates = append(rates, rateSpec{p, avg, int64(rapid.IntRange(1, int(5*avg)).Draw(rt, "burst"))})
 		}
 	}
+	drawRateSource(rt)
 	_, unfreeze := freeze(rt)
 	defer unfreeze()
 	start := clock.Now()
